@@ -6,6 +6,7 @@
 -/
 import Psa.Generated.Getters
 import Psa.Model.Claims
+import Psa.Model.Setters
 namespace Psa.Tie.Getters
 open Psa Psa.Model
 
@@ -67,5 +68,81 @@ theorem comp_signer (sc : SwComp) :
   cases sc.signer with
   | none => rfl
   | some v => simp only []; cases validatePSAHashType v <;> rfl
+
+/-! ### setters: the regenerated verdict decides, the one assignment follows
+
+`eff r c c'`: what a setter whose regenerated body yields `r` does to the claims-set `c`, `c'` being `c` with the field
+assigned (the translator has checked that `<recv>.<Field> = &v; return nil` is all that follows the validations). -/
+
+def eff {α} (r : Outcome Unit) (c c' : α) : α × Outcome Unit :=
+  match r with
+  | .ok _ => (c', .ok ())
+  | .err m => (c, .err m)
+  | .panic s => (c, .panic s)
+
+theorem set_clientId_p1 (c : Claims) (v : Int) :
+    applySet c (.clientId v) = eff (Generated.p1SetClientID v) c { c with clientId := some v } := rfl
+theorem set_clientId_p2 (c : Claims) (v : Int) :
+    applySet c (.clientId v) = eff (Generated.p2SetClientID v) c { c with clientId := some v } := rfl
+
+theorem set_lifecycle_p1 (c : Claims) (v : Nat) :
+    applySet c (.lifecycle v) = eff (Generated.p1SetSecurityLifeCycle v) c { c with lifecycle := some v } := by
+  simp only [applySet, Generated.p1SetSecurityLifeCycle, eff]; cases validateSecurityLifeCycle v <;> rfl
+theorem set_lifecycle_p2 (c : Claims) (v : Nat) :
+    applySet c (.lifecycle v) = eff (Generated.p2SetSecurityLifeCycle v) c { c with lifecycle := some v } := by
+  simp only [applySet, Generated.p2SetSecurityLifeCycle, eff]; cases validateSecurityLifeCycle v <;> rfl
+
+theorem set_implId_p1 (c : Claims) (v : Bytes) :
+    applySet c (.implId v) = eff (Generated.p1SetImplID v) c { c with implId := some v } := by
+  simp only [applySet, Generated.p1SetImplID, eff]; cases validateImplID v <;> rfl
+theorem set_implId_p2 (c : Claims) (v : Bytes) :
+    applySet c (.implId v) = eff (Generated.p2SetImplID v) c { c with implId := some v } := by
+  simp only [applySet, Generated.p2SetImplID, eff]; cases validateImplID v <;> rfl
+
+theorem set_bootSeed_p1 (c : Claims) (v : Bytes) (hp : c.prof = .p1) :
+    applySet c (.bootSeed v) = eff (Generated.p1SetBootSeed v) c { c with bootSeed := some v } := by
+  simp only [applySet, Generated.p1SetBootSeed, eff, hp]; by_cases h : v.length != 32 <;> simp [h, eWrongSyntax]
+theorem set_bootSeed_p2 (c : Claims) (v : Bytes) (hp : c.prof = .p2) :
+    applySet c (.bootSeed v) = eff (Generated.p2SetBootSeed v) c { c with bootSeed := some v } := by
+  simp only [applySet, Generated.p2SetBootSeed, eff, hp]
+  by_cases h1 : v.length < 8 <;> by_cases h2 : v.length > 32 <;> simp [h1, h2, eWrongSyntax]
+
+theorem set_certRef_p1 (c : Claims) (v : Bytes) (hp : c.prof = .p1) :
+    applySet c (.certRef v) = eff (Generated.p1SetCertificationReference v) c { c with certRef := some v } := by
+  simp only [applySet, Generated.p1SetCertificationReference, eff, hp]
+  by_cases h : (!isEan13 v && !isEan13p5 v) = true <;> simp [h, eWrongSyntax]
+theorem set_certRef_p2 (c : Claims) (v : Bytes) (hp : c.prof = .p2) :
+    applySet c (.certRef v) = eff (Generated.p2SetCertificationReference v) c { c with certRef := some v } := by
+  simp only [applySet, Generated.p2SetCertificationReference, eff, hp]
+  by_cases h : (!isEan13p5 v) = true <;> simp [h, eWrongSyntax]
+
+theorem set_nonce_p1 (c : Claims) (v : Bytes) :
+    applySet c (.nonce v) = eff (Generated.p1SetNonce v) c { c with nonce := some [v] } := by
+  simp only [applySet, Generated.p1SetNonce, eff]; cases validatePSAHashType v <;> rfl
+
+theorem set_instId_p1 (c : Claims) (v : Bytes) :
+    applySet c (.instId v) = eff (Generated.p1SetInstID v) c { c with instId := some v } := by
+  simp only [applySet, Generated.p1SetInstID, eff]; cases validateInstID v <;> rfl
+
+theorem set_vsi_p1 (c : Claims) (v : Bytes) :
+    applySet c (.vsi v) = eff (Generated.p1SetVSI v) c { c with vsi := some v } := by
+  simp only [applySet, Generated.p1SetVSI, eff]; cases validateVSI v <;> rfl
+theorem set_vsi_p2 (c : Claims) (v : Bytes) :
+    applySet c (.vsi v) = eff (Generated.p2SetVSI v) c { c with vsi := some v } := by
+  simp only [applySet, Generated.p2SetVSI, eff]; cases validateVSI v <;> rfl
+
+/-- the component's own setters -/
+theorem comp_set_mval (sc : SwComp) (v : Bytes) :
+    applyCompSet sc (.mval v) = eff (Generated.compSetMeasurementValue v) sc { sc with mval := some v } := by
+  simp only [applyCompSet, Generated.compSetMeasurementValue, eff]; cases validatePSAHashType v <;> rfl
+theorem comp_set_signer (sc : SwComp) (v : Bytes) :
+    applyCompSet sc (.signer v) = eff (Generated.compSetSignerID v) sc { sc with signer := some v } := by
+  simp only [applyCompSet, Generated.compSetSignerID, eff]; cases validatePSAHashType v <;> rfl
+theorem comp_set_mtype (sc : SwComp) (v : Bytes) :
+    applyCompSet sc (.mtype v) = eff (Generated.compSetMeasurementType v) sc { sc with mtype := some v } := rfl
+theorem comp_set_version (sc : SwComp) (v : Bytes) :
+    applyCompSet sc (.version v) = eff (Generated.compSetVersion v) sc { sc with version := some v } := rfl
+theorem comp_set_mdesc (sc : SwComp) (v : Bytes) :
+    applyCompSet sc (.mdesc v) = eff (Generated.compSetMeasurementDesc v) sc { sc with mdesc := some v } := rfl
 
 end Psa.Tie.Getters
